@@ -75,6 +75,11 @@ impl Norm for () {
         Slot::Unit
     }
 }
+impl Norm for ((), ()) {
+    fn norm(self) -> Slot {
+        Slot::Unit
+    }
+}
 impl<T: Norm> Norm for Option<T> {
     fn norm(self) -> Slot {
         Slot::Opt(self.map(|t| Box::new(t.norm())))
@@ -207,6 +212,10 @@ pub enum Mem {
     Not(&'static str),
     MaybeRd(&'static str),
     MaybeWr(&'static str),
+    /// `(!&storage).maybe()`: an optional member around a negated storage
+    MaybeNot(&'static str),
+    /// `(!&a, !&b).maybe()`: an optional member around a tuple made of negations only
+    MaybeNot2(&'static str, &'static str),
     RRd(&'static str),
     RWr(&'static str),
     Drain(&'static str),
@@ -240,6 +249,8 @@ macro_rules! bind {
     (rd, $v:ident, $w:ident, $c:ty) => { let $v = $w.read_storage::<$c>(); };
     (not, $v:ident, $w:ident, $c:ty) => { let $v = $w.read_storage::<$c>(); };
     (mrd, $v:ident, $w:ident, $c:ty) => { let $v = $w.read_storage::<$c>(); };
+    (mnot, $v:ident, $w:ident, $c:ty) => { let $v = $w.read_storage::<$c>(); };
+    (mnot2, $v:ident, $w:ident, $c:ty, $d:ty) => { let $v = ($w.read_storage::<$c>(), $w.read_storage::<$d>()); };
     (rrd, $v:ident, $w:ident, $c:ty) => { let $v = $w.read_storage::<$c>(); };
     (wr, $v:ident, $w:ident, $c:ty) => { let mut $v = $w.write_storage::<$c>(); };
     (mwr, $v:ident, $w:ident, $c:ty) => { let mut $v = $w.write_storage::<$c>(); };
@@ -253,6 +264,8 @@ macro_rules! mexpr {
     (wr, $v:ident, $aux:ident, $c:ty) => { &mut $v };
     (not, $v:ident, $aux:ident, $c:ty) => { !&$v };
     (mrd, $v:ident, $aux:ident, $c:ty) => { (&$v).maybe() };
+    (mnot, $v:ident, $aux:ident, $c:ty) => { (!&$v).maybe() };
+    (mnot2, $v:ident, $aux:ident, $c:ty, $d:ty) => { (!&$v.0, !&$v.1).maybe() };
     (mwr, $v:ident, $aux:ident, $c:ty) => { (&mut $v).maybe() };
     (rrd, $v:ident, $aux:ident, $c:ty) => { &$v.restrict() };
     (rwr, $v:ident, $aux:ident, $c:ty) => { &mut $v.restrict_mut() };
@@ -273,6 +286,8 @@ macro_rules! mdesc {
     (wr, $c:ty) => { Mem::Wr(<$c as Comp>::NAME) };
     (not, $c:ty) => { Mem::Not(<$c as Comp>::NAME) };
     (mrd, $c:ty) => { Mem::MaybeRd(<$c as Comp>::NAME) };
+    (mnot, $c:ty) => { Mem::MaybeNot(<$c as Comp>::NAME) };
+    (mnot2, $c:ty, $d:ty) => { Mem::MaybeNot2(<$c as Comp>::NAME, <$d as Comp>::NAME) };
     (mwr, $c:ty) => { Mem::MaybeWr(<$c as Comp>::NAME) };
     (rrd, $c:ty) => { Mem::RRd(<$c as Comp>::NAME) };
     (rwr, $c:ty) => { Mem::RWr(<$c as Comp>::NAME) };
@@ -419,6 +434,8 @@ defs! {
     a2_rd_bnot, full; a: rd(CDense), b: bnot(b2);
     a2_wr_maybe, full; a: wr(CBTree), m: mrd(CNull);
     a2_ent_mwr, full; e: ent, m: mwr(CFlagVec);
+    a2_rd_mnot, full; a: rd(CVec), m: mnot(CDense);
+    a3_ent_mnot2, full; e: ent, m: mnot2(CHash, CVec2), a: mrd(CBTree);
     a2_drain_ent, once; d: drain(CDense), e: ent;
     a2_drain_bits, once; d: drain(CHash), x: bits(b0);
     a3_drain_rd, once; e: ent, d: drain(CBTree), a: rd(CVec);
@@ -499,7 +516,7 @@ impl JModel {
             Mem::BOr(a, b) => self.bits[a].union(&self.bits[b]).cloned().collect(),
             Mem::BXor(a, b) => self.bits[a].symmetric_difference(&self.bits[b]).cloned().collect(),
             Mem::Cs(c) | Mem::CsMut(c) | Mem::CsVal(c) => self.cs[c].keys().cloned().collect(),
-            Mem::Not(_) | Mem::BNot(_) | Mem::MaybeRd(_) | Mem::MaybeWr(_) => return None,
+            Mem::Not(_) | Mem::BNot(_) | Mem::MaybeRd(_) | Mem::MaybeWr(_) | Mem::MaybeNot(_) | Mem::MaybeNot2(..) => return None,
         })
     }
     pub fn expected_indices(&self, mems: &[Mem]) -> Vec<u32> {
@@ -563,6 +580,24 @@ impl JModel {
                 Mem::Not(_) => {
                     if *s != Slot::Unit {
                         return bad("()".into());
+                    }
+                }
+                Mem::MaybeNot(n) => {
+                    let exp = Slot::Opt(if self.comps[n].contains_key(&i) { None } else { Some(Box::new(Slot::Unit)) });
+                    if *s != exp {
+                        return bad(format!("{:?} (optional member around a negated storage)", exp));
+                    }
+                }
+                Mem::MaybeNot2(n, n2) => {
+                    // the inner tuple is present where both storages lack the component; its item is ((), ())
+                    let present = !self.comps[n].contains_key(&i) && !self.comps[n2].contains_key(&i);
+                    let ok = match s {
+                        Slot::Opt(None) => !present,
+                        Slot::Opt(Some(_)) => present,
+                        _ => false,
+                    };
+                    if !ok {
+                        return bad(format!("{} (optional member around a tuple of two negated storages)", if present { "Some(..)" } else { "None" }));
                     }
                 }
                 Mem::MaybeRd(n) => {
@@ -1178,11 +1213,14 @@ pub mod par {
             }
             c
         };
+        let mut churned = 0u64;
         for name in STORAGES.iter() {
             let mut members = random_subset(&mut rng, &universe);
+            let mut far_only = false;
             if far && rng.chance(1, 3) {
                 // every member beyond 262144: nothing of this storage lies under the first top-layer bit
                 members = universe.iter().cloned().filter(|i| *i >= 262144 && rng.chance(1, 2)).collect();
+                far_only = true;
             } else if !matches!(*name, "CFlagNull") && rng.chance(4, 5) {
                 members.extend(core.iter().cloned());
             }
@@ -1196,6 +1234,26 @@ pub mod par {
                 if let Out::InsOk(None, s) = drivers[name].access(&world, model.live[&i], Path::Insert, payload) {
                     m.insert(i, s);
                 }
+            }
+            // churn: removals followed by insertions leave dense layouts with moved tails and reused slots
+            if !far_only && m.len() >= 3 && rng.chance(1, 2) {
+                let keys: Vec<u32> = m.keys().cloned().collect();
+                for _ in 0..rng.range(1, 6) {
+                    let i = keys[rng.below(keys.len())];
+                    if m.remove(&i).is_some() {
+                        let _ = drivers[name].access(&world, model.live[&i], Path::Remove, 0);
+                    }
+                    if rng.chance(2, 3) {
+                        let j = universe[rng.below(universe.len())];
+                        if !m.contains_key(&j) {
+                            payload += 1;
+                            if let Out::InsOk(None, s) = drivers[name].access(&world, model.live[&j], Path::Insert, payload) {
+                                m.insert(j, s);
+                            }
+                        }
+                    }
+                }
+                churned += 1;
             }
             model.comps.insert(name, m);
         }
@@ -1221,7 +1279,8 @@ pub mod par {
         for name in ["cs0", "cs1", "cs2"] {
             model.cs.insert(name, BTreeMap::new());
         }
-        hist.push(format!("setup: {} created, {} kept, core {}", n, model.live.len(), core.len()));
+        hist.push(format!("setup: {} created, {} kept, core {}, {} storages churned", n, model.live.len(), core.len(), churned));
+        rep.bump("storages_churned_before_joins", churned);
         trace::push(&hist[0]);
         let rounds = rng.range(2, cfg.ops.max(3));
         let mut failure: Option<(Fail, usize)> = None;
